@@ -262,14 +262,12 @@ func (srv *Server) start(ctx context.Context, m *Method, r capnp.Recv) capnp.Pip
 	done := make(chan struct{})
 	go func() {
 		err := m.Impl(ctx, call)
-		r.ReleaseArgs()
-		if err == nil {
-			aq.fulfill(call.results)
-			r.Returner.Return(nil)
-		} else {
-			aq.reject(err)
-			r.Returner.Return(err)
-		}
+		// The implementation has returned: the call is not running any
+		// more.  Give its slot up before releasing the arguments and
+		// delivering the results: either may drop the last reference to
+		// this very server (a call that was passed, or returns, its own
+		// target), and Shutdown, which then runs on this goroutine, waits
+		// for the ongoing calls.
 		srv.mu.Lock()
 		srv.ongoing[id].cancel()
 		srv.ongoing[id] = cstate{}
@@ -281,6 +279,14 @@ func (srv *Server) start(ctx context.Context, m *Method, r capnp.Recv) capnp.Pip
 			srv.full = nil
 		}
 		srv.mu.Unlock()
+		r.ReleaseArgs()
+		if err == nil {
+			aq.fulfill(call.results)
+			r.Returner.Return(nil)
+		} else {
+			aq.reject(err)
+			r.Returner.Return(err)
+		}
 		close(done)
 	}()
 	var pcall capnp.PipelineCaller
